@@ -222,4 +222,81 @@ pub fn vx_arc_vec_retain<T: Clone, P: Fn(&T) -> bool>(a: &mut std::sync::Arc<Vec
     ensures forall|ps: spec_fn(T) -> bool| vx_pred1_agrees(p, ps) ==> final(a)@ == #[trigger] old(a)@.filter(ps),
 { std::sync::Arc::make_mut(a).retain(|x| p(x)) }
 
+
+// ---- types seen by process_nlri_change ----------------------------------------------------------------------------
+#[verifier::external_type_specification]
+#[verifier::external_body]
+pub struct ExNlriE(packet::Nlri);
+#[verifier::external_type_specification]
+pub struct ExPathE(table::Path);
+#[verifier::external_type_specification]
+pub struct ExNlriChangeE(table::NlriChange);
+#[verifier::external_type_specification]
+#[verifier::external_body]
+pub struct ExPolicyAssignmentE(table::PolicyAssignment);
+#[verifier::external_type_specification]
+#[verifier::external_body]
+pub struct ExRpkiTableE(table::RpkiTable);
+#[verifier::external_type_specification]
+pub struct ExDispositionE(table::Disposition);
+#[verifier::external_type_specification]
+#[verifier::external_body]
+pub struct ExRtcFilterE(crate::rtc::RtcFilter);
+
+pub assume_specification[ <packet::Nlri as Clone>::clone ](n: &packet::Nlri) -> (r: packet::Nlri)
+    ensures r == *n,
+;
+pub assume_specification[ <table::Disposition as PartialEq>::eq ](a: &table::Disposition, b: &table::Disposition) -> (r: bool)
+    ensures r == (*a == *b),
+;
+pub assume_specification[ <IpAddr as PartialEq>::eq ](a: &IpAddr, b: &IpAddr) -> (r: bool)
+    ensures r == (*a == *b),
+;
+pub assume_specification[ table::NlriChange::new_best ](c: &table::NlriChange) -> (r: Option<&table::Path>)
+    ensures r == (if c.current_paths@.len() > 0 { Some(&c.current_paths@[0]) } else { None }),
+;
+pub uninterp spec fn src_remote_addr(s: table::Source) -> IpAddr;
+pub uninterp spec fn src_router_id(s: table::Source) -> u32;
+/// the LLGR-stale flag (an atomic read as a plain field: one serialised stream of changes per session, A-C01-1)
+pub uninterp spec fn src_llgr_stale(s: table::Source) -> bool;
+#[verifier::external_body]
+pub fn vx_source_remote_addr(s: &table::Source) -> (r: IpAddr) ensures r == src_remote_addr(*s), { s.remote_addr }
+#[verifier::external_body]
+pub fn vx_source_router_id(s: &table::Source) -> (r: u32) ensures r == src_router_id(*s), { s.router_id }
+pub assume_specification[ table::Source::is_llgr_stale ](s: &table::Source) -> (r: bool)
+    ensures r == src_llgr_stale(*s),
+;
+/// the RTC filter's verdict: a function of the filter and the attribute list
+pub uninterp spec fn rtc_allows(f: crate::rtc::RtcFilter, a: Seq<packet::Attribute>) -> bool;
+pub assume_specification[ crate::rtc::RtcFilter::allows ](f: &crate::rtc::RtcFilter, a: &[packet::Attribute]) -> (r: bool)
+    ensures r == rtc_allows(*f, a@),
+;
+/// export policy (table::apply_export -> PolicyAssignment::apply; C14 covers its evaluation skeleton): NOT under contract
+/// here — it enters as an uninterpreted deterministic function of its arguments (assumed: no hidden state), which keeps
+/// stored AS_PATH attributes well-formed (A-C09-2)
+pub uninterp spec fn sp_apply_export(policy: table::PolicyAssignment, rpki: Option<&table::RpkiTable>, source: table::Source, net: packet::Nlri,
+    attr: Seq<packet::Attribute>, nexthop: Option<bgp::Nexthop>, original_nexthop: Option<bgp::Nexthop>, is_confed: bool, local_addr: IpAddr, peer_addr: IpAddr)
+    -> (table::Disposition, Seq<packet::Attribute>, Option<bgp::Nexthop>);
+pub open spec fn as_paths_wf(s: Seq<packet::Attribute>) -> bool { forall|i: int| #![trigger s[i]] 0 <= i < s.len() && attr_code(s[i]) == 2 ==> attr_binary(s[i]) is Some }
+pub assume_specification[ table::apply_export ](
+    policy: &table::PolicyAssignment, rpki: Option<&table::RpkiTable>, source: &std::sync::Arc<table::Source>, net: &packet::Nlri,
+    attr: &mut std::sync::Arc<Vec<packet::Attribute>>, nexthop: &mut Option<bgp::Nexthop>, original_nexthop: Option<bgp::Nexthop>,
+    is_confed: bool, local_addr: IpAddr, peer_addr: IpAddr) -> (r: table::Disposition)
+    ensures
+        (r, final(attr)@, *final(nexthop)) == sp_apply_export(*policy, rpki, **source, *net, old(attr)@, *old(nexthop), original_nexthop, is_confed, local_addr, peer_addr),
+        as_paths_wf(old(attr)@) ==> as_paths_wf(final(attr)@),
+;
+/// R11 helper: `a.difference(&b)` as a vector (iteration order of a hash set: unspecified), without duplicates
+#[verifier::external_body]
+pub fn vx_set_difference_vec(a: &fnv::FnvHashSet<u32>, b: &fnv::FnvHashSet<u32>) -> (r: Vec<u32>)
+    ensures
+        r@.no_duplicates(),
+        forall|x: u32| #![trigger r@.contains(x)] r@.contains(x) <==> (a@.contains(x) && !b@.contains(x)),
+{ a.difference(b).copied().collect() }
+/// R11 helper: the path ids of the current top-N as a hash set
+#[verifier::external_body]
+pub fn vx_collect_pids(v: &Vec<(u32, std::sync::Arc<Vec<packet::Attribute>>, Option<bgp::Nexthop>, std::sync::Arc<table::Source>)>) -> (r: fnv::FnvHashSet<u32>)
+    ensures forall|x: u32| #![trigger r@.contains(x)] r@.contains(x) <==> (exists|i: int| #![trigger v@[i]] 0 <= i < v@.len() && v@[i].0 == x),
+{ v.iter().map(|t| t.0).collect() }
+
 } // verus!
